@@ -429,6 +429,9 @@ pub struct C07;
 
 impl Prop for C07 {
     type Case = Case;
+    fn max_shrink_iters(&self) -> u32 {
+        60
+    }
     fn name(&self) -> &'static str {
         "close-points"
     }
